@@ -412,7 +412,14 @@ pub(crate) fn add_int_permutation<W, R, T>(
             if k > n{
                 return xerr(ManagedXError::new("k cannot be greater than n", rt)?);
             }
-            let total = (n-k+1..=n).product();
+            // the number of permutations is only compared with i: stop multiplying once it is larger
+            let mut total: usize = 1;
+            for factor in n-k+1..=n {
+                total = total.saturating_mul(factor);
+                if total > i {
+                    break;
+                }
+            }
             if i >= total{
                 return xerr(ManagedXError::new("i too large", rt)?);
             }
